@@ -307,9 +307,17 @@ impl SockWorker {
 }
 
 fn is_harness_url(url: &str) -> bool {
-    // "/xxxxxxxx/r<id>…"
+    // "…/xxxxxxxx/r<id>…" (possibly behind scheme and authority of an absolute-form target)
     let b = url.as_bytes();
-    b.len() > 11 && b[0] == b'/' && b[9] == b'/' && b[10] == b'r' && b[1..9].iter().all(|c| c.is_ascii_hexdigit())
+    if b.len() < 12 {
+        return false;
+    }
+    for i in 0..=b.len() - 12 {
+        if b[i] == b'/' && b[i + 9] == b'/' && b[i + 10] == b'r' && b[i + 1..i + 9].iter().all(|c| c.is_ascii_hexdigit()) && b[i + 11].is_ascii_digit() {
+            return i == 0 || url[..i].contains("://");
+        }
+    }
+    false
 }
 
 impl Drop for SockWorker {
